@@ -82,7 +82,7 @@ class Ctx:
         self.abort_reason = why
         raise PathAbort(why)
 
-    def branch(self, cond):
+    def branch(self, cond, payload=None):
         """Decide a symbolic condition: follow a feasible side, remember the other."""
         if isinstance(cond, bool):
             return cond
@@ -95,9 +95,14 @@ class Ctx:
             raise PathAbort(self.abort_reason)
         i = len(self.decisions)
         self.stats.decisions += 1
+        h = _site()
         if i < len(self.prefix):
-            taken = self.prefix[i]
-            self.decisions.append((taken, None))
+            taken = self.prefix[i][0]
+            if self.prefix[i][2] != h:
+                self.aborted = True
+                self.abort_reason = "unknown: non-deterministic re-execution (replayed decision met a different condition)"
+                raise PathAbort(self.abort_reason)
+            self.decisions.append((taken, None, payload, h))
         else:
             rt = self.check(cond)
             rf = self.check(z3.Not(cond))
@@ -106,17 +111,24 @@ class Ctx:
             t, f = rt == z3.sat, rf == z3.sat
             if t and f:
                 taken = True
-                self.decisions.append((True, True))
+                self.decisions.append((True, True, payload, h))
             elif t:
                 taken = True
-                self.decisions.append((True, False))
+                self.decisions.append((True, False, payload, h))
             elif f:
                 taken = False
-                self.decisions.append((False, False))
+                self.decisions.append((False, False, payload, h))
             else:
                 self.abort("infeasible path")
         self.solver.add(cond if taken else z3.Not(cond))
         return taken
+
+    def replayed_payload(self):
+        """payload recorded at the next decision index on the path being replayed (or None)"""
+        i = len(self.decisions)
+        if i < len(self.prefix):
+            return self.prefix[i][1]
+        return None
 
     def fresh_name(self, base):
         self.fresh += 1
@@ -144,6 +156,18 @@ class Ctx:
 
 def cur():
     return Ctx.cur
+
+
+def _site(depth=8):
+    """call-site signature of a decision (z3 terms are not syntactically stable across re-executions because the
+    simplifier orders commutative arguments by AST id, so divergence is detected by where the decision is asked)"""
+    import sys
+    f = sys._getframe(2)
+    sig = []
+    while f is not None and len(sig) < depth:
+        sig.append((f.f_code.co_filename, f.f_lineno))
+        f = f.f_back
+    return hash(tuple(sig))
 
 
 def explore(fn, max_paths=20000, stats=None):
@@ -174,20 +198,20 @@ def explore(fn, max_paths=20000, stats=None):
             Ctx.cur = None
         stats.paths += 1
         dec = []
-        for i, (taken, alt) in enumerate(ctx.decisions):
+        for i, (taken, alt, payload, h) in enumerate(ctx.decisions):
             if alt is None:
                 alt = known[i][1]
-            dec.append((taken, alt))
+            dec.append((taken, alt, payload, h))
         while dec and not dec[-1][1]:
             dec.pop()
         if not dec:
             return stats
         if stats.paths >= max_paths:
             raise Inconclusive("path cap %d reached" % max_paths)
-        taken, _ = dec.pop()
-        dec.append((not taken, False))
+        taken, _, payload, h = dec.pop()
+        dec.append((not taken, False, payload, h))
         known = dec
-        prefix = [d[0] for d in dec]
+        prefix = [(d[0], d[2], d[3]) for d in dec]
 
 
 # ----------------------------------------------------------------------------- values
@@ -448,12 +472,14 @@ class SInt(SNum):
         while True:
             if ctx.aborted:
                 raise PathAbort(ctx.abort_reason)
-            r = ctx.check()
-            if r != z3.sat:
-                ctx.abort("infeasible/unknown while concretising")
-            v = ctx.model().eval(self.z, model_completion=True)
-            if ctx.branch(self.z == v):
-                return v.as_long()
+            v = ctx.replayed_payload()          # deterministic re-execution: reuse the recorded choice
+            if v is None:
+                r = ctx.check()
+                if r != z3.sat:
+                    ctx.abort("infeasible/unknown while concretising")
+                v = ctx.model().eval(self.z, model_completion=True).as_long()
+            if ctx.branch(self.z == v, payload=v):
+                return v
 
     def __index__(self):
         return self.concretize()
